@@ -1407,4 +1407,154 @@ theorem defines_currentConfig {ud c x : Str} (h : defines ud x = true) : defines
 
 theorem currentConfig_nil (c : Str) : currentConfig [] c = c := by simp [currentConfig]
 
+
+/-! ### syntactic classes inside `safe` -/
+
+theorem flat_regions_or {t : Items} (h : t.flat = true) (fl : Flags) : ∀ stk P, safeItems fl stk P t = true := by
+  induction t with
+  | done => intro _ _; rfl
+  | region r rest ih => intro stk P; simpa [safeItems] using ih (by simpa [Items.flat] using h) stk P
+  | cond => simp [Items.flat] at h
+  | condElse => simp [Items.flat] at h
+
+theorem sameSet_refl (l : List Str) : sameSet l l = true := sameSet_iff.mpr (fun _ => Iff.rfl)
+
+/-- `#else` stack repair only: every tree whose `#if !defined` conditionals contain regions only is safe -/
+theorem safeItems_fixElse {fl : Flags} (h1 : fl.fixElse = true) :
+    ∀ (t : Items) (stk P : List Str), (∀ m ∈ t.macros, m ≠ []) → ndLeaf t = true → sameSet (names stk) P = true →
+      safeItems fl stk P t = true
+  | .done, _, _, _, _, _ => rfl
+  | .region _ rest, stk, P, hm, hl, hs => by
+    simpa [safeItems] using safeItems_fixElse h1 rest stk P hm (by simpa [ndLeaf] using hl) hs
+  | .cond k m t rest, stk, P, hm, hl, hs => by
+    have hmm : m ≠ [] := hm m (by simp [Items.macros])
+    simp only [ndLeaf, Bool.and_eq_true] at hl
+    have hR := safeItems_fixElse h1 rest stk P (fun x hx => hm x (by simp [Items.macros, hx])) hl.2 hs
+    simp only [safeItems, loss_fixElse h1, Bool.or_eq_true, Bool.and_eq_true]
+    refine ⟨Or.inr ?_, by simpa using hR⟩
+    unfold thenCheck
+    by_cases hk : k = .ifNotDefined
+    · have hf : t.flat = true := by simpa [hk] using hl.1
+      subst hk
+      cases hfn : fl.fixNotDef <;> simp [cls, hfn, flat_regions_or hf]
+    · have hT := fun stk' P' => safeItems_fixElse h1 t stk' P' (fun x hx => hm x (by simp [Items.macros, hx])) (by simpa [hk] using hl.1)
+      cases k <;> simp_all [cls, hT _ _ (sameSet_push hmm hs), hT _ _ (sameSet_push_nil hs)]
+  | .condElse k m t e rest, stk, P, hm, hl, hs => by
+    have hmm : m ≠ [] := hm m (by simp [Items.macros])
+    simp only [ndLeaf, Bool.and_eq_true] at hl
+    have hR := safeItems_fixElse h1 rest stk P (fun x hx => hm x (by simp [Items.macros, hx])) hl.2 hs
+    have d0 : dropsAtElse fl k = false := by simp [dropsAtElse, h1]
+    simp only [safeItems, loss_fixElse h1, d0, Bool.or_eq_true, Bool.and_eq_true]
+    refine ⟨⟨Or.inr ?_, Or.inr ?_⟩, by simpa using hR⟩
+    · unfold thenCheck
+      by_cases hk : k = .ifNotDefined
+      · have hf : t.flat = true := by have := hl.1; simp [hk] at this; exact this.1
+        subst hk
+        cases hfn : fl.fixNotDef <;> simp [cls, hfn, flat_regions_or hf]
+      · have hT := fun stk' P' => safeItems_fixElse h1 t stk' P' (fun x hx => hm x (by simp [Items.macros, hx]))
+          (by have := hl.1; simp [hk] at this; exact this.1)
+        cases k <;> simp_all [cls, hT _ _ (sameSet_push hmm hs), hT _ _ (sameSet_push_nil hs)]
+    · unfold elseCheck elseStack
+      by_cases hk : k = .ifNotDefined
+      · have hf : e.flat = true := by have := hl.1; simp [hk] at this; exact this.2
+        subst hk
+        cases hfn : fl.fixNotDef <;> simp [cls, hfn, h1, hs, flat_regions_or hf]
+      · have hE := fun stk' P' => safeItems_fixElse h1 e stk' P' (fun x hx => hm x (by simp [Items.macros, hx]))
+          (by have := hl.1; simp [hk] at this; exact this.2)
+        cases k <;> simp_all [cls, hE _ _ (sameSet_push hmm hs), hE _ _ (sameSet_push_nil hs)]
+
+theorem loss_noDrop (fl : Flags) : ∀ t : Items, noDropElse t = true → loss fl t = 0
+  | .done, _ => rfl
+  | .region _ rest, h => by simpa [loss] using loss_noDrop fl rest (by simpa [noDropElse] using h)
+  | .cond _ _ t rest, h => by
+    simp only [noDropElse, Bool.and_eq_true] at h
+    simp [loss, loss_noDrop fl t h.1, loss_noDrop fl rest h.2]
+  | .condElse k _ t e rest, h => by
+    simp only [noDropElse, Bool.and_eq_true, beq_iff_eq] at h
+    obtain ⟨⟨⟨hk, ht⟩, he⟩, hr⟩ := h
+    subst hk
+    simp [loss, loss_noDrop fl t ht, loss_noDrop fl e he, loss_noDrop fl rest hr, dropsAtElse, cls]
+
+/-- below the top level: no `#else` except on `#ifndef`, `#if !defined` conditionals contain regions only -/
+theorem safeItems_noDrop (fl : Flags) :
+    ∀ (t : Items) (stk P : List Str), (∀ m ∈ t.macros, m ≠ []) → ndLeaf t = true → noDropElse t = true →
+      sameSet (names stk) P = true → safeItems fl stk P t = true
+  | .done, _, _, _, _, _, _ => rfl
+  | .region _ rest, stk, P, hm, hl, hn, hs => by
+    simpa [safeItems] using safeItems_noDrop fl rest stk P hm (by simpa [ndLeaf] using hl) (by simpa [noDropElse] using hn) hs
+  | .cond k m t rest, stk, P, hm, hl, hn, hs => by
+    have hmm : m ≠ [] := hm m (by simp [Items.macros])
+    simp only [ndLeaf, Bool.and_eq_true] at hl
+    simp only [noDropElse, Bool.and_eq_true] at hn
+    have hR := safeItems_noDrop fl rest stk P (fun x hx => hm x (by simp [Items.macros, hx])) hl.2 hn.2 hs
+    simp only [safeItems, loss_noDrop fl t hn.1, Bool.or_eq_true, Bool.and_eq_true]
+    refine ⟨Or.inr ?_, by simpa using hR⟩
+    unfold thenCheck
+    by_cases hk : k = .ifNotDefined
+    · have hf : t.flat = true := by simpa [hk] using hl.1
+      subst hk
+      cases hfn : fl.fixNotDef <;> simp [cls, hfn, flat_regions_or hf]
+    · have hT := fun stk' P' => safeItems_noDrop fl t stk' P' (fun x hx => hm x (by simp [Items.macros, hx]))
+        (by simpa [hk] using hl.1) hn.1
+      cases k <;> simp_all [cls, hT _ _ (sameSet_push hmm hs), hT _ _ (sameSet_push_nil hs)]
+  | .condElse k m t e rest, stk, P, hm, hl, hn, hs => by
+    have hmm : m ≠ [] := hm m (by simp [Items.macros])
+    simp only [noDropElse, Bool.and_eq_true, beq_iff_eq] at hn
+    obtain ⟨⟨⟨hk, hnt⟩, hne⟩, hnr⟩ := hn
+    subst hk
+    simp only [ndLeaf, Bool.and_eq_true] at hl
+    have hlt : ndLeaf t = true := by have := hl.1; simp at this; exact this.1
+    have hle : ndLeaf e = true := by have := hl.1; simp at this; exact this.2
+    have hR := safeItems_noDrop fl rest stk P (fun x hx => hm x (by simp [Items.macros, hx])) hl.2 hnr hs
+    have hT := safeItems_noDrop fl t ([] :: stk) P (fun x hx => hm x (by simp [Items.macros, hx])) hlt hnt (sameSet_push_nil hs)
+    have hE := safeItems_noDrop fl e (m :: stk) (m :: P) (fun x hx => hm x (by simp [Items.macros, hx])) hle hne (sameSet_push hmm hs)
+    simp only [safeItems, loss_noDrop fl t hnt, loss_noDrop fl e hne, Bool.or_eq_true, Bool.and_eq_true]
+    refine ⟨⟨Or.inr ?_, Or.inr ?_⟩, by simpa [dropsAtElse, cls] using hR⟩
+    · simp [thenCheck, cls, hT]
+    · simp [elseCheck, cls, hs, hE]
+
+/-- top level of the code as it is: surplus pops hit the empty vector -/
+theorem safeItems_simpleElse (fl : Flags) :
+    ∀ (t : Items), (∀ m ∈ t.macros, m ≠ []) → ndLeaf t = true → simpleElse t = true → safeItems fl [] [] t = true
+  | .done, _, _, _ => rfl
+  | .region _ rest, hm, hl, hn => by
+    simpa [safeItems] using safeItems_simpleElse fl rest hm (by simpa [ndLeaf] using hl) (by simpa [simpleElse] using hn)
+  | .cond k m t rest, hm, hl, hn => by
+    have hmm : m ≠ [] := hm m (by simp [Items.macros])
+    simp only [simpleElse, Bool.and_eq_true] at hn
+    have hl0 := hl
+    simp only [ndLeaf, Bool.and_eq_true] at hl
+    have hR := safeItems_simpleElse fl rest (fun x hx => hm x (by simp [Items.macros, hx])) hl.2 hn.2
+    have h0 : sameSet (names ([] : List Str)) [] = true := by decide
+    have hC := safeItems_noDrop fl (.cond k m t .done) [] [] (fun x hx => hm x (by simp [Items.macros] at hx ⊢; rcases hx with h | h <;> simp [h]))
+      (by simpa [ndLeaf] using hl.1) (by simpa [noDropElse] using hn.1) h0
+    simp only [safeItems, Bool.and_eq_true, List.drop_nil] at hC ⊢
+    exact ⟨hC.1, hR⟩
+  | .condElse k m t e rest, hm, hl, hn => by
+    have hmm : m ≠ [] := hm m (by simp [Items.macros])
+    simp only [simpleElse, Bool.and_eq_true] at hn
+    simp only [ndLeaf, Bool.and_eq_true] at hl
+    have hR := safeItems_simpleElse fl rest (fun x hx => hm x (by simp [Items.macros, hx])) hl.2 hn.2
+    have h0 : sameSet (names ([] : List Str)) [] = true := by decide
+    have hm1 : sameSet (names [m]) [m] = true := sameSet_push (stk := []) (P := []) hmm h0
+    have hn1 : sameSet (names [([] : Str)]) [] = true := sameSet_push_nil (stk := []) h0
+    simp only [safeItems, List.drop_nil, loss_noDrop fl t hn.1.1, Bool.or_eq_true, Bool.and_eq_true]
+    refine ⟨⟨Or.inr ?_, Or.inr ?_⟩, hR⟩
+    · unfold thenCheck
+      by_cases hk : k = .ifNotDefined
+      · have hf : t.flat = true := by have := hl.1; simp [hk] at this; exact this.1
+        subst hk
+        cases hfn : fl.fixNotDef <;> simp [cls, hfn, flat_regions_or hf]
+      · have hT := fun stk' P' => safeItems_noDrop fl t stk' P' (fun x hx => hm x (by simp [Items.macros, hx]))
+          (by have := hl.1; simp [hk] at this; exact this.1) hn.1.1
+        cases k <;> simp_all [cls]
+    · unfold elseCheck elseStack
+      by_cases hk : k = .ifNotDefined
+      · have hf : e.flat = true := by have := hl.1; simp [hk] at this; exact this.2
+        subst hk
+        cases hfn : fl.fixNotDef <;> cases hfe : fl.fixElse <;> simp [cls, hfn, h0, flat_regions_or hf]
+      · have hE := fun stk' P' => safeItems_noDrop fl e stk' P' (fun x hx => hm x (by simp [Items.macros, hx]))
+          (by have := hl.1; simp [hk] at this; exact this.2) hn.1.2
+        cases k <;> cases hfe : fl.fixElse <;> simp_all [cls]
+
 end Cppcheck.Configs
